@@ -184,7 +184,7 @@ def blinds_strategy(draw, n, sb_amt, bb_amt):
 @st.composite
 def custom_game(draw):
     fam = draw(st.sampled_from(['flop', 'stud', 'draw', 'kuhn', 'flop',
-                                'stud']))
+                                'stud', 'mixed']))
     structure = draw(st.sampled_from(['FIXED_LIMIT', 'POT_LIMIT',
                                       'NO_LIMIT']))
     cap = draw(st.sampled_from([None, None, 1, 2, 3, 4]))
@@ -233,6 +233,23 @@ def custom_game(draw):
             deck=deck, hand_types=hts, structure=structure, streets=streets,
             family=fam, hole=hole, board=sum(shape),
             burns=int(burn) * len(shape), stud=False, max_n=9,
+        )
+    if fam == 'mixed':
+        # streets that prescribe a hole card *and* a community card (none of
+        # the predefined variants has one): full tables run the deck short,
+        # so the hole-to-board fall-back meets a street with its own board
+        k = draw(st.integers(2, 4))
+        first = draw(st.sampled_from([[0, 0], [0, 0, 1], [0, 1]]))
+        streets = [[0, first, 0, 0, 'POSITION', mb, cap]]
+        for j in range(k):
+            up = draw(st.sampled_from([0, 1]))
+            streets.append([int(burn), [up], 1, 0, 'POSITION',
+                            mb * (2 if j >= k - 2 and k > 2 else 1), cap])
+        return dict(
+            deck='STANDARD', hand_types=['StandardHighHand'],
+            structure=structure, streets=streets, family=fam,
+            hole=len(first) + k, board=k, burns=int(burn) * k, stud=True,
+            bring=False, max_n=9,
         )
     if fam == 'stud':
         nstreets = draw(st.integers(3, 5))
